@@ -88,7 +88,7 @@ def check_table(world, ctx):
             if got[0] != want[0] or (got[0] == "value" and not (type(got[1]) is type(want[1]) and got[1] == want[1])):
                 raise Violation("attribute-table", "%s: reading %r on node %d (%s) gives %r, model %r; links=%s" % (ctx, name, label, world.kind[label], got, want, [(i, t) for i, t in enumerate(world.target) if t is not None]))
         if world.kind[label] == "link":
-            if vars(node).get("target") is not world.nodes[world.target[label]]:
+            if node.target is not world.nodes[world.target[label]]:
                 raise Violation("target-attribute", "%s: link %d no longer points at its target" % (ctx, label))
     for node in world.nodes:
         # the navigation attributes of every node - links included - follow its OWN position (definitions of C04)
